@@ -1,4 +1,5 @@
 import PcfgVerif.Properties.PQRestore
+import PcfgVerif.Lemmas.SoftFloatLemmas
 import PcfgVerif.Generated.Session
 /-!
 # C08 — resuming a saved session loses nothing and repeats at most the tied group
@@ -21,6 +22,16 @@ theorem C08_resume (A : PAlg P) (g : Grid P) (hwf : WF A.toPOps g) (m mn : P)
     (∀ v ∈ s.popped ++ s.queue, ValidNode g v ∧ A.le (nodeProb A.toPOps g v) m = true) ∧
     (s.queue = [] → s.popped.Perm ((allNodes g).filter fun v => A.le (nodeProb A.toPOps g v) m)) :=
   pq_resume A g hwf m mn hmin s h
+
+/-- **binary64 instance** (see `C01_order_binary64`): the resume theorem for IEEE-754 doubles; the saved
+minimum is `0.0`, below which no double product of probabilities lies, so `hmin` is discharged too -/
+theorem C08_resume_binary64 (g : Grid Nat) (hwf : WF sfAlg.toPOps g) (m : Nat)
+    (s : PQState) (h : Reach sfAlg.toPOps g (restoreNodes sfAlg.toPOps g m 0) s) :
+    (s.popped ++ s.queue).Nodup ∧
+    NonIncreasing sfAlg.toPOps g s.popped ∧
+    (∀ v ∈ s.popped ++ s.queue, ValidNode g v ∧ sfAlg.le (nodeProb sfAlg.toPOps g v) m = true) ∧
+    (s.queue = [] → s.popped.Perm ((allNodes g).filter fun v => sfAlg.le (nodeProb sfAlg.toPOps g v) m)) :=
+  C08_resume sfAlg g hwf m 0 (by intro v _; simp [POps.lt, sfAlg]) s h
 
 /-- nothing is lost: everything the uninterrupted run `u` emits from position `k` on is emitted by
 the run resumed from `m = prob (u.popped[k])` -/
